@@ -147,6 +147,8 @@ c.ensure('accepted_only_if_registered_and_configurable', lambda x: z3.Or(
     key_parts(x.a.binding_key.e)[3], accepted(x)))
 c.ensure('names_the_complete_selector', lambda x: parse_result_ok(x, x.result))
 c.may_raise_other = True
+c.exc_ensure('an_already_parsed_key_is_never_rejected',
+             lambda x: z3.Not(key_parts(x.a.binding_key.e)[3]))
 c.assumptions.append('elements of a tuple/list binding key are strings')
 c.canary('MUSTFAIL_accepts_everything', lambda x: z3.BoolVal(False))
 register(c)
@@ -228,6 +230,8 @@ c.ensure('provenance_of_that_cell_is_the_given_location', lambda x: cell_update(
     x.old['_CONFIG_PROVENANCE'], x.new['_CONFIG_PROVENANCE'], *_bound_cell(x),
     x.a.location.e))
 c.may_raise_other = True
+c.exc_ensure('raises_only_if_locked_or_key_rejected', lambda x: z3.Or(
+    locked(x.old), z3.Not(key_parts(x.a.binding_key.e)[3])))
 c.canary('MUSTFAIL_binds_when_locked', lambda x: locked(x.old))
 register(c)
 
@@ -246,4 +250,73 @@ def _skip_form_ok(v):
 c.raise_case('bad_form', 'ValueError', when=lambda x: z3.Not(_skip_form_ok(x.a.skip_unknown.e)))
 c.ensure('form_ok', lambda x: _skip_form_ok(x.a.skip_unknown.e))
 c.raises_only_listed = True
+register(c)
+
+# ---- _is_known_selector / _should_skip (C15) ---------------------------------------------
+
+
+def ctx_dynamic(ctxv):
+  """The parse context has dynamic registration enabled (opaque attribute)."""
+  return sym.val_truthy(sym.ufun('attr__dynamic_registration', sym.Val, sym.Val)(ctxv))
+
+
+def resolvable(ctxv, sel):
+  """`sel` resolves through the context's own import table (assumed predicate)."""
+  return sym.ufun('ctx_resolves', sym.Val, sym.Str, sym.BoolS)(ctxv, sel)
+
+
+world.VAL_METHOD_CONTRACTS['_resolve_selector'] = 'config.py::ParseContext._resolve_selector'
+c = Contract('config.py::ParseContext._resolve_selector', ['C15', 'C19'], kind='assumed')
+c.param('self', KVal)
+c.param('selector', KStr)
+c.result = KVal
+c.ensure('only_if_resolvable', lambda x: resolvable(x.a.self.e, x.a.selector.e))
+c.raise_case('unknown_first_component', 'NameError',
+             when=lambda x: z3.Not(resolvable(x.a.self.e, x.a.selector.e)))
+c.raise_case('missing_attribute', 'AttributeError',
+             when=lambda x: z3.Not(resolvable(x.a.self.e, x.a.selector.e)))
+c.raises_only_listed = True
+c.assumptions.append('ParseContext._resolve_selector either returns (the name resolves '
+                     'through the file\'s own imports) or raises NameError/AttributeError, '
+                     'without side effects  [its body: getattr chains on real modules; '
+                     'bounded: bC19]')
+register(c)
+
+
+def known(x, sel):
+  """'Known' as the property defines it: resolvable through the file's imports
+  under dynamic registration, else matched by some registered name."""
+  ctxv = _top_ctx(x.old)
+  return z3.If(ctx_dynamic(ctxv), resolvable(ctxv, sel),
+               z3.Exists([s_], matches(x.old['_REGISTRY'], sel, s_)))
+
+
+c = Contract('config.py::_is_known_selector', ['C15'])
+c.param('selector', KStr)
+c.result = KBool
+c.require('a_parse_context_exists', lambda x: x.old['_PARSE_CONTEXTS'].len >= 1)
+c.ensure('known_means_resolvable_or_registered', lambda x: x.result.e == known(x, x.a.selector.e))
+c.raises_only_listed = True
+register(c)
+
+
+def covers(v, sel):
+  sym.val_axioms()
+  t = sym.tag_of(v)
+  return z3.If(t == sym.TAG['bool'], sym.val_as_bool(v),
+               sym.ufun('val_contains', sym.Val, sym.Val, sym.BoolS)(v, sym.val_of_str(sel)))
+
+
+c = Contract('config.py::_should_skip', ['C15'])
+c.param('selector', KStr)
+c.param('skip_unknown', KVal)
+c.result = KBool
+c.require('a_parse_context_exists', lambda x: x.old['_PARSE_CONTEXTS'].len >= 1)
+c.raise_case('bad_form', 'ValueError', when=lambda x: z3.Not(_skip_form_ok(x.a.skip_unknown.e)))
+c.ensure('skips_exactly_unknown_and_covered', lambda x: x.result.e == z3.And(
+    z3.Not(known(x, x.a.selector.e)), covers(x.a.skip_unknown.e, x.a.selector.e)))
+c.ensure('known_is_never_skipped', lambda x: z3.Implies(known(x, x.a.selector.e),
+                                                       z3.Not(x.result.e)))
+c.raises_only_listed = True
+c.canary('MUSTFAIL_never_skips', lambda x: z3.Not(x.result.e))
 register(c)
